@@ -86,6 +86,12 @@ def newOID (s : Bytes) : Option Bytes :=
   | some b => if b.length = 20 then some b else none
   | none => none
 
+/-- `bytes.IndexByte(s, c)`: the position of the first `c`, or -1 -/
+def indexByteI (s : Bytes) (c : UInt8) : Int :=
+  match Bytes.indexOf c s with
+  | some i => (i : Int)
+  | none => -1
+
 /-- `words[i]` for a `[]string` with a signed index -/
 def indexL (l : List Bytes) (i : Int) : Res Bytes :=
   if i < 0 then .panic "index-out-of-range" else
